@@ -58,3 +58,20 @@ def get_connected_subgraph(
     subgraph.name = f'{source} —> {dest}, rec={is_recurrent}, oneof={is_oneof}, nested_oneof={is_nested_oneof}'
 
     return subgraph
+
+
+def get_restricted_subgraph(dag: DiGraph, scope: DiGraph) -> DiGraph:
+    """
+    Get the part of the dag that lies inside the scope. The result keeps the properties of the scope
+    """
+
+    subgraph: DiGraph = dag.subgraph(node_id for node_id in scope if node_id in dag)
+
+    subgraph.is_recurrent = scope.is_recurrent
+    subgraph.is_oneof = scope.is_oneof
+    subgraph.is_nested_oneof = scope.is_nested_oneof
+    subgraph.source = scope.source
+    subgraph.dest = scope.dest
+    subgraph.name = scope.name
+
+    return subgraph
